@@ -325,14 +325,25 @@ Theorem C13_consistent_check_sound : forall (T : tables) s G, consistent_check T
 Proof. exact consistent_check_sound. Qed.
 Print Assumptions C13_consistent_check_sound.
 
+(* the finite checkers of the structural premises (extracted, run on every dumped state) are sound *)
+Theorem C13_wf_check_sound : forall m, wf_check m = true -> wf m.
+Proof. exact wf_check_sound. Qed.
+Print Assumptions C13_wf_check_sound.
+
+Theorem C13_acct_check_sound : forall m, acct_check m = true -> acct m.
+Proof. exact acct_check_sound. Qed.
+Print Assumptions C13_acct_check_sound.
+
 (* non-vacuity on the real tables: the state of C13_example_define_delete just before the deletion (two active variables,
    an active bias on both) is well-formed and consistent; the deletion of the first variable is a deletion sequence *)
 Example C13_example_consistent_computed : exists m m',
   m_run gen_tables 40 (firstn 8 ex_ops) (m_empty 5) = Some m /\ consistent_check gen_tables (m_objs m) 40 = true /\
+  wf_check m = true /\ acct_check m = true /\
   is_enabled (m_objs m) 7 0 = true /\ is_enabled (m_objs m) 0 0 = true /\ rc (m_objs m) 0 0 = 1%Z /\
   m_run gen_tables 40 [MDeleteColvar 0] m = Some m'.
 Proof.
   do 2 eexists. split; [vm_compute; reflexivity|]. split; [vm_compute; reflexivity|]. split; [vm_compute; reflexivity|].
+  split; [vm_compute; reflexivity|]. split; [vm_compute; reflexivity|].
   split; [vm_compute; reflexivity|]. split; [vm_compute; reflexivity|]. vm_compute. reflexivity.
 Qed.
 
@@ -342,7 +353,7 @@ Example C13_example_consistent : exists m m',
   forallb deletion_op [MDeleteColvar 0] = true /\ m_run gen_tables 40 [MDeleteColvar 0] m = Some m' /\
   consistent gen_tables (m_objs m').
 Proof.
-  destruct C13_example_consistent_computed as (m & m' & E & Ck & A1 & A2 & A3 & E').
+  destruct C13_example_consistent_computed as (m & m' & E & Ck & _ & _ & A1 & A2 & A3 & E').
   assert (W : wf m) by (destruct (C13_initial_state_consistent 5) as (W0 & A0); apply (m_run_wf gen_tables 40 _ _ _ W0 A0 E)).
   assert (C : consistent gen_tables (m_objs m)) by (apply (consistent_check_sound gen_tables (m_objs m) 40 Ck)).
   exists m, m'. repeat (split; [assumption || reflexivity|]).
